@@ -339,7 +339,10 @@ class ImportURI(scoping.ModelLoader):
             visited.append(obj)
             if self.search_path is not None:
                 # search_path based i/o:
-                my_search_path = [dirname(model._tx_filename)] + self.search_path
+                # (a model given as a string has no directory of its own)
+                my_search_path = (
+                    [dirname(model._tx_filename)] if model._tx_filename else []
+                ) + self.search_path
                 loaded_model = model._tx_model_repository.load_model_using_search_path(
                     self.importURI_converter(obj.importURI),
                     model=model,
@@ -352,7 +355,9 @@ class ImportURI(scoping.ModelLoader):
 
             else:
                 # globing based i/o:
-                basedir = abspath(dirname(model._tx_filename))
+                # (a model given as a string imports relative to the current
+                # directory)
+                basedir = abspath(dirname(model._tx_filename or ""))
                 filename_pattern = abspath(
                     join(basedir, self.importURI_converter(obj.importURI))
                 )
